@@ -13,6 +13,7 @@ Classes
 import copy as _copy
 import datetime
 import gc
+import os
 import pickle
 import time
 import weakref
@@ -377,6 +378,7 @@ class Sim(object):
             # the bundled archive is absent for the whole run (as it is in
             # this source tree): that branch of the chain yields nothing
             self.world.bundle = None
+        self.fresh = None
         self.inflight = {}          # task -> request being executed
         self.last_by_key = {}
         self.tz_changes = 0
@@ -972,6 +974,27 @@ class Actor(object):
                 if ZW.observe(c, ts) != ZW.observe(obj, ts):
                     ctx.violation("C18.copy_behaves_differently",
                                   dict(op=op, of=rec["op"], ts=ts))
+            if op[0] == "pickle" and sim.fresh is not None and \
+                    rec["prov"] != "arch":
+                # the same pickle read back by a process that has built no
+                # zone yet must behave like the original
+                import base64
+                ans = sim.fresh.ask(dict(
+                    blob=base64.b64encode(pickle.dumps(obj, op[2])).decode(),
+                    tz=sim.tzenv, probes=sim.PROBE_TS))
+                ctx.checks += 1
+                ctx.probe("pickle_read_by_fresh_process")
+                here = [list(ZW.observe(obj, ts)) for ts in sim.PROBE_TS]
+                if ans[0] == "oracle-raised":
+                    raise RuntimeError("fresh-process oracle: %r" % (ans,))
+                if ans[0] != "ok":
+                    ctx.violation("C18.pickle_unusable_in_fresh_process",
+                                  dict(op=op, of=rec["op"], exc=ans[1],
+                                       msg=ans[2]))
+                elif ans[1] != here:
+                    ctx.violation("C18.pickle_differs_in_fresh_process",
+                                  dict(op=op, of=rec["op"], here=here,
+                                       fresh=ans[1]))
             ctx.event(self.name, op, rec["ord"])
         c = None
 
@@ -1046,6 +1069,24 @@ def _resized_recently(self):
 Sim.resized_recently = _resized_recently
 
 
+def _unpickle_and_observe(req):
+    """Runs in a process that has never constructed a zone."""
+    import base64
+    import warnings
+    warnings.simplefilter("ignore")
+    tzv = req["tz"]
+    if tzv is None:
+        os.environ.pop("TZ", None)
+    else:
+        os.environ["TZ"] = tzv
+    time.tzset()
+    try:
+        z = pickle.loads(base64.b64decode(req["blob"]))
+        return ["ok", [list(ZW.observe(z, ts)) for ts in req["probes"]]]
+    except Exception as e:
+        return ["exc", type(e).__name__, str(e)[:200]]
+
+
 def execute(cls, scenario, ctx):
     import warnings
     warnings.simplefilter("ignore")
@@ -1053,6 +1094,10 @@ def execute(cls, scenario, ctx):
     sim = Sim(ctx, scenario, fault_class)
     ctx.event("knobs", scenario.get("knobs"))
     if cls == "hist":
+        # a process that has built no zone yet: pickles are read back there
+        # (a restart with only the pickled bytes surviving)
+        from dsim.fresh import FreshProcess
+        sim.fresh = FreshProcess(_unpickle_and_observe)
         actor = Actor(sim, "main")
         K.set_budget(3000000)
         try:
@@ -1067,6 +1112,7 @@ def execute(cls, scenario, ctx):
             ctx.violation("liveness.budget", dict(msg=str(e)))
         finally:
             K.set_budget(None)
+            sim.fresh.close()
         if sim.between_events:
             ctx.nontrivial = True
         return
